@@ -12,7 +12,9 @@ EXPLANATION = (
     "its keys, dispatch looks ids up through _unpack_weakref and raises for unknown ids; an object is auto-proxied only under a "
     "test that it is currently in its daemon's registry (or unregister clears the marks on every deleting path); the "
     "replacement hook is installed for every serializer and weak registration stores a weakref plus a finalizer; every registry "
-    "value that is used as an object is unwrapped first; by-value serialisation neutralises the daemon mark by assignment. Not decided: identity of the object reached through a proxy, GC timing."
+    "value that is used as an object is unwrapped first; by-value serialisation neutralises the daemon mark by assignment."
+    "Also decided: serialising a value never writes to it; the registry is per daemon; unknown ids can never reach a result reply; the auto-proxy hook is installed on both registration branches; a dead weak reference is recognised by identity with None; blob calls name the call's object id; a proxy refuses an object as exposing nothing only when it has neither methods nor attributes. "
+    "Not decided: identity of the object reached through a proxy, GC timing."
 )
 
 REG = "objectsById"
@@ -340,4 +342,33 @@ def run(ctx, R, tier):
         R.check(okm and oka, "C16-R9", "__processMetadata|refusal#%d-needs-both-empty" % i, "raised only when the method set and the attribute set are both empty", pmeta.loc(n.ast),
                 "the refusal is reached although %s may be non-empty: an object that exposes only %s cannot be connected to, and returning it from a method (auto-proxy) fails" % (
                     "_pyroAttrs" if okm else "_pyroMethods", "properties" if okm else "methods"))
+
+    # a dead weak reference is recognised by identity with None (a live object that happens to be falsy is not dead)
+    uw = ctx.fn("Pyro5.server._unpack_weakref")
+    ucfg_ = ctx.cfg(uw)
+    uraises = [n for n in ucfg_.nodes if n.kind == "stmt" and isinstance(n.ast, ast.Raise)]
+    derefs = [st for st, t, k in stores_in(uw.node) if k == "assign" and isinstance(t, ast.Name) and isinstance(st.value, ast.Call) and not st.value.args
+              and isinstance(st.value.func, ast.Name) and st.value.func.id == uw.params[0]]
+    okd = len(derefs) == 1 and bool(uraises)
+    if okd:
+        rv = derefs[0].targets[0].id
+
+        def is_none(atom, pol):
+            return isinstance(atom, ast.Compare) and len(atom.ops) == 1 and unparse(atom.left) == rv and isinstance(atom.comparators[0], ast.Constant) and atom.comparators[0].value is None \
+                and ((isinstance(atom.ops[0], ast.Is) and pol is True) or (isinstance(atom.ops[0], ast.IsNot) and pol is False))
+        okd = all(ucfg_.guarded(n, lambda e: edge_has_fact(e, is_none)) for n in uraises)
+    R.check(okd, "C16-R6", "_unpack_weakref|dead-means-None", "the 'deleted meanwhile' error is raised only when dereferencing returned None (identity test)", uw.loc(),
+            "a live weakly registered object that is falsy (empty container, __bool__ False) is reported as deleted: its id is listed but unreachable")
+    # blob calls: the annotation that tells the daemon which object the serialized blob is for names the object id the call is addressed to
+    sb = ctx.fn("Pyro5.client.Proxy.__serializeBlobArgs")
+    oid = "objectId" if "objectId" in sb.params else None
+    blbi = [st for st, t, k in stores_in(sb.node) if isinstance(t, ast.Subscript) and isinstance(t.slice, ast.Constant) and t.slice.value == "BLBI"]
+    okb = oid is not None and len(blbi) == 1 and oid in {n.id for n in ast.walk(blbi[0].value) if isinstance(n, ast.Name)} and \
+        not any(isinstance(n, ast.Attribute) and n.attr == "object" for n in ast.walk(blbi[0].value))
+    inv_ = ctx.fn("Pyro5.client.Proxy._pyroInvoke")
+    call_sb = [c for c, _ in ctx.cg.calls_of(inv_) if isinstance(c.func, ast.Attribute) and c.func.attr.endswith("__serializeBlobArgs")]
+    dcall = [c for c, _ in ctx.cg.calls_of(inv_) if isinstance(c.func, ast.Attribute) and c.func.attr == "dumpsCall"]
+    same = bool(call_sb) and bool(dcall) and len(call_sb[0].args) >= 5 and dcall[0].args and unparse(call_sb[0].args[4]) == unparse(dcall[0].args[0])
+    R.check(okb and same, "C16-R3", "blob-call|addressed-to-the-same-id", "a SerializedBlob call names, in its BLBI annotation, the object id an ordinary call would carry", sb.loc(),
+            "the BLBI annotation does not carry the `objectId` of the call (e.g. the uri's object name instead): through a name-resolved proxy the blob reaches whatever is registered under that word")
 
